@@ -323,6 +323,18 @@ func runC08(seed uint64, tier, dir, replay string) error {
 				kinds = append(kinds, "mutated")
 			}
 		}
+		if dec == "eth" {
+			for _, nb := range v6Extremes(tier == "thorough") {
+				inputs = append(inputs, nb.b)
+				kinds = append(kinds, "v6-extreme")
+			}
+		}
+		if dec == "ip6" {
+			for _, nb := range v6Extremes(tier == "thorough") {
+				inputs = append(inputs, nb.b[14:])
+				kinds = append(kinds, "v6-extreme")
+			}
+		}
 		for i, in := range inputs {
 			r := pool.Run(dec, in)
 			oc := []string{"value", "error", "panic", "hang", "memory", "neither"}[r.outcome]
@@ -346,7 +358,7 @@ func runC08(seed uint64, tier, dir, replay string) error {
 		o.Meta["direct_violations"] = direct
 	}
 	o.Meta["outcomes"] = outcomes
-	o.Meta["rule"] = "per decoder (Ethernet+VLAN, ARP, IPv4, IPv6, ICMP, UDP, TCP, hop-by-hop, routing, fragment, VLAN, IPv6 option, IGMPv1/2, IGMPv3 query / group record / report, DHCP, DHCP options, LLDP and its three TLVs): truncation of a valid packet at every offset (<=120), every one of the first 24 bytes set to 0/1/0xfe/0xff, random valid packets and structure-aware mutations (truncate, boundary bytes, flips, extension); each decode runs in a worker subprocess under a 3 s wall-clock limit and a 1 GiB heap limit; distinct by decoder x input kind x outcome x size bucket"
+	o.Meta["rule"] = "per decoder (Ethernet+VLAN, ARP, IPv4, IPv6, ICMP, UDP, TCP, hop-by-hop, routing, fragment, VLAN, IPv6 option, IGMPv1/2, IGMPv3 query / group record / report, DHCP, DHCP options, LLDP and its three TLVs): truncation of a valid packet at every offset (<=120), every one of the first 24 bytes set to 0/1/0xfe/0xff, random valid packets and structure-aware mutations (truncate, boundary bytes, flips, extension); Ethernet/IPv6 packets whose extension headers carry Hdr Ext Len 0/1/31/254/255 and are long enough to hold them; each decode runs in a worker subprocess under a 3 s wall-clock limit and a 1 GiB heap limit; distinct by decoder x input kind x outcome x size bucket"
 	return o.Close()
 }
 
